@@ -34,6 +34,9 @@ class Cond:
     def __exit__(self, *a):
         return False
 
+    def notify(self, n=1):
+        self.notified = getattr(self, 'notified', 0) + n   # no other waiter in this unit
+
     def wait(self, timeout=None):
         self.waits.append(timeout)
         g = self.gaps[self.k] if self.k < len(self.gaps) else None   # None: never notified again
